@@ -230,6 +230,10 @@ func c02CandidateBindings(c *Ctx, rule, rule2 string, m *matchModel) {
 // classified as a constant: the comparison is dominated by IsConstant(...) = true (or IsVariable(...) = false).  A
 // comparison made before the classification lets a pattern variable "match" a message string that merely spells its
 // name, whatever the variable is bound to.
+//
+// The classification may have been made by the caller(s): a comparison in an unexported helper that is only ever
+// called directly counts as classified when every call site of the helper is (at that site, for the string handed
+// in), over several levels.
 func c01ConstantCompare(c *Ctx, rule string, m *matchModel) {
 	n := 0
 	for _, f := range m.fns {
@@ -249,33 +253,129 @@ func c01ConstantCompare(c *Ctx, rule string, m *matchModel) {
 				return
 			}
 			n++
-			classified := false
-			for _, ft := range flow.FactsAt(bo.Block()) {
-				cond, pol := ft.Cond, ft.True
-				if u, isU := cond.(*ssa.UnOp); isU && u.Op.String() == "!" {
-					cond, pol = u.X, !pol
-				}
-				cl, isC := cond.(*ssa.Call)
-				if !isC || cl.Common().StaticCallee() == nil {
-					continue
-				}
-				switch cl.Common().StaticCallee().Name() {
-				case "IsConstant":
-					if pol {
-						classified = true
-					}
-				case "IsVariable":
-					if !pol {
-						classified = true
-					}
-				}
-			}
+			classified := c01ClassifiedConstant(c, bo.Block(), p, map[*ssa.Function]bool{}, 0)
 			c.R.Check(classified, rule, fmt.Sprintf("%s: pattern string compared with a message string #%d only as a constant", fname(f), n), c.pos(bo), "dominated by IsConstant = true (or IsVariable = false)", "a string of the pattern is compared with the message before it is known not to be a variable: a variable then matches a message string that spells its name, whatever it is bound to (and is not bound when it is free)")
 		})
 	}
 	if n == 0 {
 		c.R.Break(rule + ": no comparison of a pattern string with a message string found in the matcher")
 	}
+}
+
+// c01StringRoot: the value a string was taken from by assertion, boxing or renaming (`vv` of `switch vv := p.(type)`
+// and `p` itself are the same string for the classification).
+func c01StringRoot(v ssa.Value) ssa.Value {
+	for i := 0; i < 16; i++ {
+		switch x := v.(type) {
+		case *ssa.ChangeType:
+			v = x.X
+		case *ssa.MakeInterface:
+			v = x.X
+		case *ssa.ChangeInterface:
+			v = x.X
+		case *ssa.TypeAssert:
+			v = x.X
+		case *ssa.Extract:
+			ta, ok := x.Tuple.(*ssa.TypeAssert)
+			if !ok || x.Index != 0 {
+				return v
+			}
+			v = ta.X
+		default:
+			return v
+		}
+	}
+	return v
+}
+
+// c01ClassifiedConstant: at block b the pattern string p is known to be a constant.  Either a fact that dominates b
+// says so (IsConstant(..) = true, IsVariable(..) = false), or b lies in an unexported function of the matcher that
+// is only ever called directly, the string is one of its parameters, and at every one of its call sites the
+// argument handed in is classified in the same sense (the caller tested it, or the caller's callers did).
+func c01ClassifiedConstant(c *Ctx, b *ssa.BasicBlock, p ssa.Value, busy map[*ssa.Function]bool, depth int) bool {
+	root := c01StringRoot(p)
+	for _, ft := range flow.FactsAt(b) {
+		cond, pol := ft.Cond, ft.True
+		if u, isU := cond.(*ssa.UnOp); isU && u.Op.String() == "!" {
+			cond, pol = u.X, !pol
+		}
+		cl, isC := cond.(*ssa.Call)
+		if !isC || cl.Common().StaticCallee() == nil {
+			continue
+		}
+		name := cl.Common().StaticCallee().Name()
+		if !(name == "IsConstant" && pol) && !(name == "IsVariable" && !pol) {
+			continue
+		}
+		if depth == 0 {
+			return true
+		}
+		// in a caller: the classification is of the string that is handed to the helper
+		for _, a := range cl.Common().Args {
+			if c01StringRoot(a) == root {
+				return true
+			}
+		}
+	}
+	f := b.Parent()
+	if depth > 6 || f.Parent() != nil || f.Object() == nil || f.Object().Exported() || busy[f] {
+		return false
+	}
+	idx := -1
+	for i, q := range f.Params {
+		if ssa.Value(q) == root {
+			idx = i
+		}
+	}
+	if idx < 0 {
+		return false
+	}
+	// every way into f is a direct call in package match
+	var sites []ssa.CallInstruction
+	direct := true
+	for _, g := range c.P.FuncsIn(prog.PkgOf(f)) {
+		ssau.Instrs(g, func(in ssa.Instruction) {
+			ci, isCall := in.(ssa.CallInstruction)
+			if isCall && ci.Common().StaticCallee() == f {
+				sites = append(sites, ci)
+			} else if isCall && ci.Common().StaticCallee() == nil {
+				for _, cal := range c.P.Callees(ci) {
+					if cal == f {
+						direct = false
+					}
+				}
+			}
+			for _, op := range in.Operands(nil) {
+				if *op != ssa.Value(f) {
+					continue
+				}
+				if !isCall || ci.Common().Value != ssa.Value(f) {
+					direct = false // the function is used as a value
+				}
+			}
+		})
+	}
+	if !direct || len(sites) == 0 {
+		return false
+	}
+	busy[f] = true
+	defer delete(busy, f)
+	for _, s := range sites {
+		if _, isCall := s.(*ssa.Call); !isCall {
+			return false
+		}
+		if idx >= len(s.Common().Args) {
+			return false
+		}
+		// a recursive call that hands on the helper's own parameter adds no new way in
+		if s.Parent() == f && c01StringRoot(s.Common().Args[idx]) == root {
+			continue
+		}
+		if !c01ClassifiedConstant(c, s.Block(), s.Common().Args[idx], busy, depth+1) {
+			return false
+		}
+	}
+	return true
 }
 
 // c04AllCandidates: C04-R16.  "The first branch whose pattern matches and whose guard returns bindings": every set of
